@@ -551,7 +551,7 @@ class Wordlist(QLCParserWithRowsAndCols):
                         else:
                             paps[key].append(0)
                     else:
-                        paps[key].append(1)
+                        paps[key].append(0)
 
         return paps
 
